@@ -3,7 +3,7 @@ EXTENDS MCInfoLib
 
 \* ---- Fb corpus: all framebuffer type bytes x colour-info lengths ----------------------------------
 FbParams == { [tb |-> tb, blen |-> bl, nc |-> nc] : tb \in 0..255, bl \in {0, 1, 2, 5, 6, 8, 11}, nc \in {0} }
-            \cup { [tb |-> tb, blen |-> bl, nc |-> nc] : tb \in {0, 1, 2}, bl \in 0..17, nc \in 0..6 \cup {255, 65535} }
+            \cup { [tb |-> tb, blen |-> bl, nc |-> nc] : tb \in {0, 1, 2}, bl \in 0..17, nc \in 0..6 \cup {255, 21845, 21846, 21847, 32768, 43691, 43692, 65535} }
 FbTag(p) ==
   LET size == 32 + p.blen
       t == RawTag(8, size, 0) IN
